@@ -159,6 +159,38 @@ func cmdC07(r *RNG, n int, e *Emitter, args []string) {
 				c2.ExecuteOC(ct, fr, &a, &b)
 				return []any{treePolys(t.PolyPathBase), normD(u(b))}
 			}},
+			{"ClipperD object reused (tree, flat, add, flat, tree, flat)", func() any {
+				// the float engine object over several executions: every step must equal the same step of a 64-bit engine
+				cl := clip.NewClipperD(prec)
+				cl.AddPaths(s, clip.Subject, false)
+				cl.AddPaths(c, clip.Clip, false)
+				t := clip.NewPolyTreeD()
+				var o clip.PathsD
+				cl.ExecutePolyTreeD(ct, fr, t, &o)
+				var a1, b1, a2, b2, a3, b3 clip.PathsD
+				cl.ExecuteOC(ct, fr, &a1, &b1)
+				cl.AddPaths(c, clip.Subject, false)
+				cl.ExecuteOC(clip.Union, fr, &a2, &b2)
+				t2 := clip.NewPolyTreeD()
+				cl.ExecutePolyTreeD(clip.Xor, fr, t2, &o)
+				cl.ExecuteOC(clip.Union, fr, &a3, &b3)
+				return []any{treePolys(t.PolyPathBase), normD(a1), normD(b1), normD(a2), normD(b2), normD(a3), normD(b3)}
+			}, func() any {
+				cl := clip.NewClipper64()
+				cl.AddPaths(q(s), clip.Subject, false)
+				cl.AddPaths(q(c), clip.Clip, false)
+				t := clip.NewPolyTree64()
+				var o clip.PathsD
+				cl.ExecutePolyTree64(ct, fr, t, &o)
+				var a1, b1, a2, b2, a3, b3 clip.Paths64
+				cl.ExecuteOC(ct, fr, &a1, &b1)
+				cl.AddPaths(q(c), clip.Subject, false)
+				cl.ExecuteOC(clip.Union, fr, &a2, &b2)
+				t2 := clip.NewPolyTree64()
+				cl.ExecutePolyTree64(clip.Xor, fr, t2, &o)
+				cl.ExecuteOC(clip.Union, fr, &a3, &b3)
+				return []any{treePolys(t.PolyPathBase), normD(u(a1)), normD(u(b1)), normD(u(a2)), normD(u(b2)), normD(u(a3)), normD(u(b3))}
+			}},
 			{"BooleanOpPolyTreeD", func() any { return treePolys(clip.BooleanOpPolyTreeD(ct, s, c, fr, prec).PolyPathBase) }, func() any { return treePolys(clip.BooleanOpPolyTree64(ct, q(s), q(c), fr).PolyPathBase) }},
 			{"InflatePathsD", func() any {
 				return clip.InflatePathsD(s, delta, jt, et, clip.WithPrecision(prec), clip.WithArcTolerance(arct))
